@@ -28,7 +28,7 @@ CHECKS = {
          "TLA+ model checking incl. liveness (TLC) + trace validation of enumerated degenerate solves"),
  "C06": ("exploration", "Per-pass mechanism relations (sigma=(1-alpha_aff)^3, first-iteration damping) checked by TLC on every trace of family G; the distributional claim "
              "(>=99.5% Solved, p95 iteration envelope) is a POSTCONDITION of Dist.tla over counters with a binomial false-alarm bound of 1e-9. Direction.tla: the search direction as the code composes it satisfies the linearised "
-             "embedding in exact rationals (two wrong dtau denominators must fail); Trace_Direction.tla: tau row, kappa row, composition and right-hand sides re-evaluated on every KKT solve of recorded runs.",
+             "embedding in exact rationals (two wrong dtau denominators must fail); Trace_Direction.tla: tau row, kappa row, composition and right-hand sides re-evaluated on every KKT solve of recorded runs. Centrality.tla / Trace_Centrality.tla: protocol and probe content of the dual-scaling centrality line search.",
          "5/C06", IPM_NOTE + " The iteration envelope (p95 <= 24, 16 for symmetric problems; the pinned tree gives 19-20 and 13) is empirical.", "trace validation against Trace_IPM + TLC postcondition over run counters (Dist.tla)"),
  "C20": (MC, "PrintShape and LastRowMatches proved on MC_IPM for all control paths; MC_Print checks target switching; on traces TLC checks the printed rows equal the "
              "model's emission sequence, footer = status, identical bytes on buffer/stream/file, silence when verbose is off, configuration header = internal problem facts, "
